@@ -56,6 +56,7 @@ type c12Prog struct {
 	InnerArb *Val    `json:"innerArb,omitempty"`
 	Opts     int     `json:"opts,omitempty"`  // options of the loaders: bit 0 - LogOptions.ID left empty; bit 1 - LogOptions.IO left unset (default codec)
 	Debug    bool    `json:"debug,omitempty"` // the codecs run with their debug switch on (SetDebug(true)); output goes to /dev/null
+	Fetch    int     `json:"fetch,omitempty"` // optional FetchOptions fields the loads are given: 0 none; 1 a progress channel; 2 a progress channel, a generous timeout, an empty exclusion list and a predicate that excludes nothing; 3 timeout and predicate only
 }
 
 // logOpts are the options a loader is called with: a fresh object per call (the loaders fill in what was left out).
@@ -89,6 +90,7 @@ func genC12(t *rapid.T) c12Prog {
 		Opts:   rapid.SampledFrom([]int{0, 0, 1, 2, 3}).Draw(t, "loaderOpts"),
 		Extra:  rapid.SampledFrom([]int{0, 0, 1, 2, 3}).Draw(t, "extra"),
 		Debug:  rapid.IntRange(0, 49).Draw(t, "debug") == 31,
+		Fetch:  rapid.SampledFrom([]int{0, 0, 1, 1, 2, 3}).Draw(t, "fetch"),
 	}
 	paths := entryPaths
 	if p.Shape == "entry-linkkey" {
@@ -701,7 +703,9 @@ func runC12(tb ev.TB, p c12Prog) ev.Result {
 	lo := p.logOpts(cborIO, true)
 	if p.Loader == 0 {
 		mustReturn(tb, "NewFromEntryHash over a log containing the block", func() {
-			loaded, lerr = ipfslog.NewFromEntryHash(ctx, st.API(), world.Identity(0), head.GetHash(), lo, &ipfslog.FetchOptions{Concurrency: p.Conc})
+			fo, pch := p.fetchOpts(p.Conc)
+			defer drainProgress(tb, pch)
+			loaded, lerr = ipfslog.NewFromEntryHash(ctx, st.API(), world.Identity(0), head.GetHash(), lo, fo)
 		})
 	} else {
 		mc, err := cborIO.Write(ctx, st.API(), &iface.JSONLog{ID: "verif-log", Heads: []cid.Cid{head.GetHash()}}, nil)
@@ -709,7 +713,9 @@ func runC12(tb ev.TB, p c12Prog) ev.Result {
 			tb.Fatalf("harness: %v", err)
 		}
 		mustReturn(tb, "NewFromMultihash over a log containing the block", func() {
-			loaded, lerr = ipfslog.NewFromMultihash(ctx, st.API(), world.Identity(0), mc, lo, &ipfslog.FetchOptions{Concurrency: p.Conc})
+			fo, pch := p.fetchOpts(p.Conc)
+			defer drainProgress(tb, pch)
+			loaded, lerr = ipfslog.NewFromMultihash(ctx, st.API(), world.Identity(0), mc, lo, fo)
 		})
 	}
 	if lerr != nil {
@@ -744,26 +750,70 @@ func runC12(tb ev.TB, p c12Prog) ev.Result {
 	// a hostile manifest as the thing being loaded
 	if p.Shape == "manifest" || p.Shape == "arbitrary" || p.Shape == "entry" {
 		safely(tb, "NewFromMultihash of the hostile block itself", func() {
-			_, _ = ipfslog.NewFromMultihash(ctx, st.API(), world.Identity(0), hc, p.logOpts(cborIO, true), &ipfslog.FetchOptions{})
+			_, _ = ipfslog.NewFromMultihash(ctx, st.API(), world.Identity(0), hc, p.logOpts(cborIO, true), p.fo())
 		})
 		safely(tb, "NewFromEntryHash of the hostile block itself", func() {
-			_, _ = ipfslog.NewFromEntryHash(ctx, st.API(), world.Identity(0), hc, p.logOpts(cborIO, true), &ipfslog.FetchOptions{})
+			_, _ = ipfslog.NewFromEntryHash(ctx, st.API(), world.Identity(0), hc, p.logOpts(cborIO, true), p.fo())
 		})
 	}
 	if p.Shape == "pb-manifest" || p.Shape == "pb-entry" {
 		safely(tb, "legacy loaders of the hostile block itself", func() {
-			_, _ = ipfslog.NewFromMultihash(ctx, st.API(), world.Identity(0), hc, p.logOpts(pbIO, false), &ipfslog.FetchOptions{})
-			_, _ = ipfslog.NewFromEntryHash(ctx, st.API(), world.Identity(0), hc, p.logOpts(pbIO, false), &ipfslog.FetchOptions{})
+			_, _ = ipfslog.NewFromMultihash(ctx, st.API(), world.Identity(0), hc, p.logOpts(pbIO, false), p.fo())
+			_, _ = ipfslog.NewFromEntryHash(ctx, st.API(), world.Identity(0), hc, p.logOpts(pbIO, false), p.fo())
 		})
 	}
 	// the loaders of a reader that holds the link key decode the block on fetch goroutines too
 	if p.Shape == "entry-linkkey" || p.Shape == "entry-linkkey-inner" {
 		safely(tb, "NewFromEntryHash (link-key reader) over a log containing the block", func() {
-			_, _ = ipfslog.NewFromEntryHash(ctx, st.API(), world.Identity(0), head.GetHash(), p.logOpts(linkIO, false), &ipfslog.FetchOptions{})
+			_, _ = ipfslog.NewFromEntryHash(ctx, st.API(), world.Identity(0), head.GetHash(), p.logOpts(linkIO, false), p.fo())
 		})
 	}
 	nt := gerr == nil && (p.Shape != "arbitrary" || val.K == "map")
 	return ev.Result{NonTrivial: nt, Classes: classes}
+}
+
+// fetchOpts builds the FetchOptions of a load: the concurrency plus the optional fields selected by p.Fetch. The
+// progress channel is roomy enough for every load of a case; what arrived on it is inspected by drainProgress.
+func (p c12Prog) fetchOpts(conc int) (*ipfslog.FetchOptions, chan iface.IPFSLogEntry) {
+	fo := &ipfslog.FetchOptions{Concurrency: conc}
+	var ch chan iface.IPFSLogEntry
+	if p.Fetch == 1 || p.Fetch == 2 {
+		ch = make(chan iface.IPFSLogEntry, 4096)
+		fo.ProgressChan = ch
+	}
+	if p.Fetch >= 2 {
+		fo.Timeout = 45 * time.Second
+		fo.ShouldExclude = func(cid.Cid) bool { return false }
+	}
+	if p.Fetch == 2 {
+		fo.Exclude = []iface.IPFSLogEntry{}
+	}
+	return fo, ch
+}
+
+func (p c12Prog) fo() *ipfslog.FetchOptions { f, _ := p.fetchOpts(0); return f }
+
+// drainProgress: whatever a load reported on its progress channel is an entry one can use.
+func drainProgress(tb ev.TB, ch chan iface.IPFSLogEntry) {
+	if ch == nil {
+		return
+	}
+	for {
+		select {
+		case e := <-ch:
+			safely(tb, "entry reported on the progress channel", func() {
+				if e == nil {
+					tb.Fatalf("a load reported a nil entry on its progress channel")
+				}
+				_ = e.GetHash().String()
+				_ = e.GetPayload()
+				_ = e.GetClock().GetTime()
+				_ = e.GetNext()
+			})
+		default:
+			return
+		}
+	}
 }
 
 func cidOf(raw []byte) cid.Cid {
